@@ -65,6 +65,7 @@ func runC02(c *Ctx) {
 	c.Rule("C02.future", "leaf exists, new > stored: ErrFuture (and no tree write) iff threshold>0 and ahead-of-clock>threshold and latest-timestamp initialised and ahead-of-latest>threshold; all 24 sub-scenarios enumerated incl. equality boundaries")
 	c.Rule("C02.reject-pure", "in every scenario a path returning a non-nil error contains no Leaf.Update and no Tree.Add (other than Add's own error)")
 	c.Rule("C02.del-cond", "the condition closure handed to ctree.WalkDeleted by gnmiRemove returns true iff stored timestamp < delete timestamp (evaluated at <, =, >)")
+	multiComplete(c, a, "C02.multi-complete")
 	c.Rule("C02.del-honoured", "in ctree.internalDelete the leaf arm calls f and reports deletion only on the true edge of condition(value)")
 
 	nParam := ssa.Value(a.gnmiUpdate.Params[1])
